@@ -13,6 +13,8 @@ META = {
         "by exactly the timeout when poll returns 0; only LOWER bounds on waiting time are claimed",
         "reference state machine written from psocket.h; a set_listen_backlog while listening may keep the old or take the new value; "
         "set_keepalive / check_connect_result on a closed socket are outside the property (queries/options, not I/O calls)",
+        "every pboolean argument (set_blocking, set_keepalive, bind allow_reuse, shutdown flags) is an arbitrary int of symbolic truth value; "
+        "getters are compared by truth value",
         "family, type and protocol are fixed per query (a symbolic socket() argument would make descriptor numbers symbolic)",
     ],
     "outside": ["real-time upper bounds of waits", "address getters on a closed socket", "sequences longer than the stated length",
@@ -55,6 +57,10 @@ def queries(tier):
                         continue
                     qs.append(sq("cloexec_%s_%s_%s%s" % (sn, fn, pn, en), "harness/C10_cloexec.c",
                                  defs=["FAMILY=" + fam, "STREAM=%d" % st] + extra + pd, faults=1, funcs=FUNCS, bounds={"faults_per_call": 1}))
+    # shutdown with pboolean flags of arbitrary truthy values (+ demonstration of the known finding)
+    qs.append(sq("shutdown_flags", "harness/C10_shutdown.c", faults=0, funcs=FUNCS, bounds={"flags": "any int, symbolic truth value"}))
+    qs.append(sq("shutdown_flags_kf_demo", "harness/C10_shutdown.c", defs=["KF_DEMO"], faults=0, funcs=FUNCS, kf="C10_shutdown_truthy_flags",
+                 bounds={"flags": "any int, symbolic truth value"}))
     # call sequences against the reference state machine
     if quick:
         seqs = [(V4, 1, 4, 0), (V4, 0, 4, 0), (V6, 1, 2, 1), (V6, 0, 3, 1)]
